@@ -158,13 +158,16 @@ def h_cancel_groupby(n: int, k0: int, k1: int, k2: int, steps: int, gsteps: int,
             grp = got[0][1]
         if end is not None:
             break
+    in_group = False
     if grp is not None and end is None:
+        in_group = True
         _g, end = D.take(grp, gsteps)
     if D.cancelled:
         if end is not cancel:
             ok = fail("groupby:cancellation-not-propagated", end) and ok
         D2 = Driver(Wa)
-        r = D2.call(g.aclose())
+        # the owner closes the iterator it was advancing: the group, or the groupby itself
+        r = D2.call((grp if in_group else g).aclose())
         if r[0] == "exc":
             ok = fail("groupby:aclose-after-cancel-raised-%s" % type(r[1]).__name__) and ok
         if not st.is_released():
@@ -463,9 +466,11 @@ def jobs(tier):
             add("h_cancel", op=op, S=3, N=1, X=(1, 7), fl=fl, ffl=ffl)
         for op in AGGS1:
             add("h_cancel", op=op, S=1, N=N1, X=(1, 2 * N1 + 2), fl=fl, ffl=ffl)
-        for op in ("filter", "enumerate", "islice", "accumulate_f", "zip", "chain", "merge", "list", "sum" if False else "max", "sorted", "reduce", "nlargest"):
+        for op in ("filter", "enumerate", "islice", "accumulate_f", "zip", "chain", "merge", "list", "sum" if False else "max", "sorted", "reduce", "nlargest", "map", "map1", "starmap", "takewhile", "compress", "zip_longest"):
             kw = {"form": 2, "PR": 2, "b0": False, "b1": False} if op == "islice" else {}
-            S_ = 2 if op in ("zip", "chain", "merge") else 1
+            S_ = 2 if op in ("zip", "chain", "merge", "map", "compress", "zip_longest") else 1
+            if op == "map1":
+                op = "map"
             add("h_cancel", op=op, S=S_, N=1, X=(1, 6), fl=fl, ffl=ffl, cancel_kind="asyncio", close_susp=1, **kw)
             if fl == "acls":
                 add("h_cancel", op=op, S=S_, N=1, X=(1, 5), fl=fl, ffl=ffl, aclose_ret=True, **kw)
